@@ -118,6 +118,15 @@ def dispatch (f : String) (j : Json) : Option Json :=
       return Json.mkObj [("found", ofNats ((search K p t).map Tree.id)),
                          ("walk", ofNats (((walk K t).filter (fun n => (matchNode K p [] n).isSome)).map Tree.id)),
                          ("leaf", ofOpt (fun l => ofNats (sortNats l)) (leafAsts K p))]
+  | "C17.searchOn" => some <| Id.run do
+      let some p := (get j "p").bind parsePat | return Json.mkObj [("err", "bad pat")]
+      let some t := (get j "t").bind parseTree | return Json.mkObj [("err", "bad tree")]
+      let on := match getStr j "on" with
+        | some "leave" => On.leave
+        | some "both" => On.both
+        | _ => On.enter
+      return Json.mkObj [("events", Json.arr ((searchEvents K p on t).map (fun ev =>
+        Json.arr #[ofNat ev.1.id, Json.bool ev.2.1, envJson ev.2.2])).toArray)]
   | _ => none
 
 end Pfst.Drv.C17
